@@ -290,3 +290,28 @@ def r1_fields(pkg):
 
 def mk_r1(comm, R, z):
     return "%s:%s:%s" % (",".join(comm), R, z)
+
+
+def order_stream(sess, suite, count=40):
+    """`Ord for Identifier` is the numeric order of the scalar: pairs that differ in one byte at every
+    position of the encoding (both directions), near-equal and extreme values."""
+    rng = sess.rng
+    fld = Fld(suite)
+    pairs = []
+    nbytes = fld.n
+    for pos in range(nbytes):
+        base = fld.rand(rng)
+        other = base ^ (1 << (8 * pos + rng.randrange(8)))
+        if 0 < other < fld.q and 0 < base:
+            pairs.append((base, other))
+    pairs += [(1, fld.q - 1), (fld.q - 1, fld.q - 2), (255, 256), (65535, 65536), (1, 2 ** (8 * (nbytes - 1)) % fld.q or 3)]
+    for _ in range(count):
+        pairs.append((fld.rand(rng), fld.rand(rng)))
+    for a, b in pairs:
+        if a == b or not (0 < a < fld.q and 0 < b < fld.q):
+            continue
+        req = "idcmp %s a=%s b=%s" % (suite, fld.enc(a), fld.enc(b))
+        r = sess.call(req, EXACT, "idcmp")
+        sess.oracle(r.ok and r["v"] == ("lt" if a < b else "gt"), "identifier order is not the numeric order of the scalars (%s)" % r.raw, [req])
+        sess.case("idcmp|%s|%d|%d" % (suite, a, b))
+    sess.count("idcmp:" + suite)
